@@ -16,6 +16,19 @@ def table(want_resp: bool, want_ass: bool, want_either: bool, resp_signed: bool,
     return ok, acc | (not expect), "accepted=%s expected=%s exc=%r resp=%r" % (acc, expect, exc, resp is not None)
 
 
+def history(first_resp_signed: bool, first_ass_signed: bool, want_resp: bool, want_ass: bool, want_either: bool, encrypted: bool, twice: bool):
+    """Two responses on the same long-lived SP object: first a genuinely signed, accepted one, then
+    a completely unsigned one.  Whether the second is accepted depends on the second alone."""
+    r1, e1 = FX.parse((first_resp_signed, first_ass_signed, False), False, False, False, True, True)
+    if twice:
+        FX.parse((first_resp_signed, first_ass_signed, encrypted), False, False, False, True, True)
+    r2, e2 = FX.parse((False, False, encrypted), want_resp, want_ass, want_either, True, True)
+    acc2 = (r2 is not None) and bool(r2.ava)
+    expect2 = not (want_resp | want_ass | want_either)
+    ok = (r1 is not None) & (acc2 == expect2)
+    return ok, True, "first=%s second=%s exc=%r" % (r1 is not None, acc2, e2)
+
+
 _P = [("want_resp", "bool"), ("want_ass", "bool"), ("want_either", "bool"), ("resp_signed", "bool"), ("ass_signed", "bool"),
       ("resp_ok", "bool"), ("ass_ok", "bool"), ("encrypted", "bool")]
 CONDITIONS = [
@@ -30,6 +43,17 @@ CONDITIONS = [
          bounds="exhaustive over the finite table: 3 options x {response signed} x {assertion signed} x verdict of each present signature x {plain, encrypted}; "
                 "identity content fixed; one assertion"),
 ]
+
+CONDITIONS.append(
+    Cond(name="history", fn="history",
+         params=[("first_resp_signed", "bool"), ("first_ass_signed", "bool"), ("want_resp", "bool"), ("want_ass", "bool"), ("want_either", "bool"),
+                 ("encrypted", "bool"), ("twice", "bool")],
+         partitions={"quick": [{"first_resp_signed": True, "first_ass_signed": False, "twice": False, "encrypted": False},
+                               {"first_resp_signed": False, "first_ass_signed": True, "twice": False, "encrypted": True}],
+                     "thorough": [{"first_resp_signed": a, "first_ass_signed": b, "twice": t} for a in (False, True) for b in (False, True) for t in (False, True) if a or b]},
+         timeout={"quick": 900, "thorough": 1800}, path_timeout=180,
+         functions=["client_base.Base.parse_authn_request_response (two / three calls on one client)", "entity.Entity._parse_response"],
+         bounds="histories on one SP object: a signed, accepted response (once or twice), then an unsigned one under each of the 8 option settings"))
 
 ASSUMPTIONS = [
     "xmlsec1 by contract: stub CryptoBackend answers verification per node id (True or SignatureError), decrypt returns the prepared plaintext",
